@@ -68,9 +68,10 @@ static const char *RESP_NAME[RS__N] = {
 static int MENU[RS__N];
 static int NMENU;
 
-enum idle { I_TIMEOUT, I_NOTIFY, I_CLOSE, I_ERROR, I_STOP, I_PUBLISH, I__N };
+enum idle { I_TIMEOUT, I_NOTIFY, I_CLOSE, I_ERROR, I_STOP, I_PUBLISH, I_INTR_LATE, I__N };
 static const char *IDLE_NAME[I__N] = {"refresh-timeout", "serial-notify", "peer-closes", "transport-error", "stop-socket",
-				       "cache-publishes-silently,then-transport-error"};
+				       "cache-publishes-silently,then-transport-error",
+				       "receive-interrupted-5s-after-the-deadline(process-was-suspended)"};
 static int IDLE_MENU[I__N];
 static int NIDLE;
 
@@ -925,6 +926,8 @@ static int hook_recv_empty(size_t want, time_t timeout)
 		}
 		if (c == I_STOP && (!env_cancel_enabled() || N_STOPS >= CFG_MAX_STOPS))
 			c = I_TIMEOUT;
+		if (c == I_INTR_LATE && timeout <= 0)
+			c = I_TIMEOUT; /* already late: one suspension per wait keeps the clock part of the state finite */
 		ev("%s", IDLE_NAME[c]);
 		switch (c) {
 		case I_NOTIFY: {
@@ -948,6 +951,12 @@ static int hook_recv_empty(size_t want, time_t timeout)
 			return TR_ERROR;
 		case I_ERROR:
 			return TR_ERROR;
+		case I_INTR_LATE:
+			/* the process was suspended past the deadline and the call comes back interrupted: the wait is
+			 * re-entered strictly after last_update + refresh */
+			ENV.now += (timeout > 0 ? timeout : 0) + 5;
+			env_progress();
+			return TR_INTR;
 		case I_STOP:
 			N_STOPS++;
 			env_end_run(PARK_STOP);
@@ -1265,6 +1274,7 @@ static void setup_menus(void)
 		menu_add(RS_TIMEOUT);
 		IDLE_MENU[NIDLE++] = I_NOTIFY;
 		IDLE_MENU[NIDLE++] = I_ERROR;
+		IDLE_MENU[NIDLE++] = I_INTR_LATE;
 	} else if (is_prop("C18S")) {
 		/* conversations with a stop request at every point where the thread can be cancelled */
 		menu_add(RS_OK_NEW);
